@@ -440,6 +440,7 @@ def divDischarge : List (Nat × Reason) := [
   (4120811507, .localGuard), -- calcSegmentAvailabilityTime: / wrapLen   (wrapLen == 0 tested: `fix:` commit)
   (2271772268, .assetLoad),  -- calcSegmentAvailabilityTime: / timescale
   (4119573384, .localGuard), -- cmafIngester.sendMediaSegments: / int(se.mediaTimescale)   (tested != 0 in the same condition)
+  (2469528414, .localGuard), -- calcPublishTimeMS: / ts   (`se.mediaTimescale == 0` returns just before; the site came with fix f41d283)
   (525333239, .cfgOK),       -- calcStatusCode: / cycleInTimescale       (CfgOK.codes, div_cycleInTimescale)
   (901678366, .assetLoad),   -- calcWrapTimes: / LoopDurMS
   (1854835984, .assetLoad),  -- calcWrapTimes: / LoopDurMS
